@@ -18,6 +18,9 @@ import (
 // Line break are inserted if a line is longer than 1000 characters (including CRLF).
 func StringToBody(str, encoding string) ([]byte, error) {
 	in := bufio.NewScanner(bytes.NewBufferString(str))
+	// A line of any length must be accepted. With the default token size
+	// limit, the scanner would silently drop a long line and the rest of the body.
+	in.Buffer(nil, len(str)+1)
 	out := new(bytes.Buffer)
 
 	var err error
